@@ -122,13 +122,56 @@ def gen_script(rng, suites, ds, length):
     return script
 
 
+LOAD_DIRS = ["a", "b", "sub/x", ""]
+LOAD_BASES = ["suite.yaml", "suite.yaml", "other.yaml", "t.yaml"]
+LOAD_NOT_YAML = ["suite.yml", "notes.txt", "suite.yaml.bak", "suite", "yaml"]
+
+
+def load_case(rng, mode, same_base=False, dup_suite=False, clean=False):
+    """[kind, mode, files on disk [[rel path, suite name, [case names]]...], paths given as --test-file]"""
+    def rel(d, b):
+        return (d + "/" + b) if d else b
+    n = rng.randint(2, 4)
+    rels = []
+    if same_base:
+        rels = ["a/suite.yaml", "b/suite.yaml"]
+    while len(rels) < n:
+        r = rel(rng.choice(LOAD_DIRS), rng.choice(LOAD_BASES))
+        if r not in rels:
+            rels.append(r)
+    suites = ["One", "Two", "Three", "S4"]
+    rng.shuffle(suites)
+    files = []
+    for i, r in enumerate(rels):
+        name = suites[i]
+        if (dup_suite and i == 1) or (not clean and not same_base and i > 0 and rng.random() < 0.08):
+            name = suites[0]
+        files.append([r, name, rng.sample(["x", "y", "z"], rng.randint(1, 3))])
+    paths = list(rels)
+    rng.shuffle(paths)
+    if not clean and not same_base:
+        t = rng.random()
+        if t < 0.12:
+            paths.insert(rng.randint(0, len(paths)), rng.choice(paths))          # the same path twice
+        elif t < 0.22:
+            paths.insert(rng.randint(0, len(paths)), rng.choice(["c/suite.yaml", "a", "missing.yaml"]))
+        elif t < 0.32:
+            bad = rel(rng.choice(LOAD_DIRS), rng.choice(LOAD_NOT_YAML))
+            if all(not (f[0] + "/").startswith(bad + "/") and not (bad + "/").startswith(f[0] + "/") for f in files):
+                files.append([bad, "Other", ["x"]])
+                paths.insert(rng.randint(0, len(paths)), bad)
+        elif t < 0.42 and len(paths) > 1:
+            paths.pop()                                                          # a file on disk that is not asked for
+    return ["c05.load", mode, files, paths]
+
+
 class C05(Prop):
     id = "C05"
     props = "C05_Props"
-    coq_files = ("Base", "C08_Model", "C05_Model", "C05_Spec", "C05_Proofs", "C05_Props")
+    coq_files = ("Base", "C08_Model", "C05_Load", "C05_Model", "C05_Spec", "C05_Proofs", "C05_LoadProofs", "C05_Props")
     models = ("C05_Model",)
     packages = {"cc": "internal/app/connectconformance"}
-    kinds = {"c05.run": "cc", "c05.complete": "cc"}
+    kinds = {"c05.run": "cc", "c05.complete": "cc", "c05.load": "cc"}
     rule = ("c05.run: the real run() with the test binary re-executed as scripted server / client PROCESSES that report every "
             "ServerCompatRequest, ClientCompatRequest, start and exit to a coordinator (logical clock). detail 0: scripted server and "
             "client, lockstep schedules (per move: which held server answers/dies, which request the client answers; quiescence "
@@ -164,11 +207,15 @@ class C05(Prop):
     go_timeout = 1500
 
     def nontrivial(self, case, res):
+        if case[0] == "c05.load":
+            return "657272" not in res[:12]      # not an (err ...) result
         return len(res) > 40
 
     def describe(self, case, g, m):
         if case[0] == "c05.complete":
             return "request completion / server request differ from the proved model"
+        if case[0] == "c05.load":
+            return "suite files taking part in the run (LoadTestSuitesFromFiles / Run) differ from the proved model"
         return "scheduling of run(): sends / server lifetimes / outcomes differ from the proved model"
 
     # -- generators ---------------------------------------------------------
@@ -192,6 +239,15 @@ class C05(Prop):
 
     def generate(self, rng, tier):
         quick = tier == "quick"
+        # which --test-file suite files take part: two files of the same base name in different directories in
+        # every run, at loader level and through Run(); then random file sets
+        for mode in (0, 1):
+            yield load_case(rng, mode, same_base=True)
+            yield load_case(rng, mode, same_base=True, dup_suite=True)
+        for _ in range(150 if quick else 3000):
+            yield load_case(rng, 0)
+        for i in range(24 if quick else 300):
+            yield load_case(rng, 1, clean=(i % 2 == 0))
         # a few small runs without TLS first (no RSA key generation: cheap to shrink when something is wrong)
         for maxs in (1, 2, 3):
             yield self.run_case(rng, 0, lockstep=True, maxs=maxs, nsuites=4, tls=False)
